@@ -18,13 +18,11 @@ def _cases(tier):
     # mode 'samples': one field observed with the values in order (merge_field_sets path)
     # mode 'list'   : one list value holding the values (DUnion construction path)
     if tier == "quick":
-        for h in A.histories(vals, 2):
+        for h in A.histories(vals + [A.ABSENT], 3):
             yield {"mode": "samples", "h": h}
         for h in A.histories(vals, 2, 2):
             yield {"mode": "list", "h": h}
-        for h in itertools.combinations_with_replacement(atoms + [A.ABSENT], 3):
-            yield {"mode": "samples", "h": list(h)}
-        for h in itertools.combinations_with_replacement(atoms, 3):
+        for h in itertools.combinations_with_replacement(vals, 3):
             yield {"mode": "list", "h": list(h)}
     else:
         for h in A.histories(vals + [A.ABSENT], 3):
@@ -124,7 +122,7 @@ def execute(case):
 
 def run(tier, seed):
     r = core.Run(PROP, tier, seed)
-    r.rule = ("E1: all value sequences/multisets (<=2 over 46 values + <=3 over atoms quick; <=3 over values, all multisets of 4 over 46 values and of 5 over atoms thorough) fed through generate() as samples of one field and as one list value, plus graph inputs "
+    r.rule = ("E1: all value sequences/multisets (all sequences of <=3 over 48 values as samples and multisets of 3 as one list quick; <=3 over values, all multisets of 4 over 46 values and of 5 over atoms thorough) fed through generate() as samples of one field and as one list value, plus graph inputs "
               "through merge_models; non-trivial = distinct canonical result containing a union or optional")
     r.bounds = {"tier": tier, "values": len(A.VALUE_NAMES), "atoms": len(A.ATOM_NAMES)}
     r.assumptions = ["operands are restricted to types the real _detect_type produces for JSON values (inferred types)",
